@@ -8,7 +8,7 @@ export GOFLAGS=-mod=mod GOPROXY=off GOSUMDB=off GOTOOLCHAIN=local; unset GOWORK
 cd $W || exit 2
 git checkout -q -- . ; git clean -fdq -e OUT
 path=$(grep -m1 -E '_test\.go' $D/demo_path.txt | grep -oE '[A-Za-z0-9_./-]+_test\.go' | head -1)
-cmd=$(grep -m1 -E '^\s*go test' $D/demo_path.txt)
+cmd=$(grep -m1 -oE 'go test .*' $D/demo_path.txt)
 [ -z "$path" -o -z "$cmd" ] && { echo "{\"ok\":false,\"why\":\"cannot parse demo_path.txt\"}" > $D/verified.json; exit 1; }
 cp $D/demo_test.go $path
 clean_out=$(eval "$cmd" 2>&1); clean_st=$?
